@@ -1,11 +1,11 @@
 /-
 C10 driver. Line kinds
 
-`sched <gen> <task 0|g|r> <pgate 0|1> <attrCount> <valueLen> <eventCount> <linkCount> <perEvent> <perLink> <hex name>
+`sched <gen> <task 0|g|r> <pgate 0|1 [+ `R` = the span itself is RecordOnly]> <attrCount> <valueLen> <eventCount> <linkCount> <perEvent> <perLink> <hex name>
        | <op> | <op> … => <obs per op …> ## <isRecording> <childSpanCount> <endTime> ; <delivery> ; <delivery> …`
    task: 0 = no runtime/trace task, g = `executionTracerTaskEnd` replaced by a gate, r = real runtime/trace task
    ops : C04's mutators (`sa`, `ev`, `ln`, `re`, `st`, `nm`), `e <k>` (End call k with timestamp k, in its own
-         goroutine, run to its first gate or return), `g <k>` (release call k's gate), `ir` (IsRecording), `ch` (child
+         goroutine, run to its first gate or return), `g <k>` (release call k's gate), `ir` (IsRecording), `ch [D|R|S]` (child
          Start), `ot` (Tracer()/ForceFlush), `rg <p>` / `ur <p>` (Register/UnregisterSpanProcessor)
    obs : `-` · `0|1` (ir) · `r` returned · `T` blocked in the task-end hook · `P<p>` blocked inside OnEnd of p · `H` hang
    delivery = `<p> <endTime> <children> <immutable 0|1> <snapshot (9 tokens, C04 syntax)>` in OnEnd order
@@ -29,7 +29,10 @@ def parseSOp : List String → Option SOp
   | ["e", k] => k.toNat?.map .end_
   | ["g", k] => k.toNat?.map .gate
   | ["ir"] => some .isRec
-  | ["ch"] => some .child
+  | ["ch"] => some (.child .recordAndSample)
+  | ["ch", "S"] => some (.child .recordAndSample)
+  | ["ch", "R"] => some (.child .recordOnly)
+  | ["ch", "D"] => some (.child .drop)
   | ["ot"] => some .other
   | ["rg", p] => p.toNat?.map .reg
   | ["ur", p] => p.toNat?.map .unreg
@@ -83,7 +86,8 @@ def schedOracle (lim : Limits) (name : Bytes) (ops : List SOp) (obs : List Strin
   let cutAt := firstIdx.getD ops.length
   let pre := ops.take cutAt
   let muts := pre.filterMap fun | .mut op => some op | _ => none
-  let nChild := (pre.filter (· == .child)).length
+  -- every child STARTED before the end counts, whatever the sampler decided for it
+  let nChild := (pre.filter fun | .child _ => true | _ => false).length
   let regd := pre.filterMap fun | .reg p => some p | _ => none
   let must := regd.filter fun p => !(ops.contains (.unreg p))
   let winnerReturned := (ops.zip obs).any fun (op, o) => o == "r" && (op == .end_ k || op == .gate k)
@@ -156,7 +160,7 @@ def schedLine (task pg : String) (ls : List String) (name0 : String) (rest obs :
   let [o1, o2] := splitOnTok "##" obs | none
   let fin ← parseFinal o2
   let cfg : Cfg := { lim := lim, name := name, hasTask := task != "0" }
-  let gates : Gates := { task := task == "g", proc := pg == "1" }
+  let gates : Gates := { task := task == "g", proc := pg.startsWith "1" }
   let (s, mobs) := runScript cfg gates (init cfg) ops
   let mfin := modelFinal s
   let agree := mobs == o1 && mfin == fin
@@ -167,7 +171,10 @@ def schedLine (task pg : String) (ls : List String) (name0 : String) (rest obs :
     (if mobs.contains "T" then ["task-gate"] else []) ++ (if task == "r" then ["rt-task"] else []) ++
     (if mobs.any (·.startsWith "P") then ["onend-gate"] else []) ++
     (if afterEnd.any (fun | .mut _ => true | _ => false) then ["mut-after-end"] else []) ++
-    (if afterEnd.contains .child then ["child-after-end"] else []) ++
+    (if afterEnd.any (fun | .child _ => true | _ => false) then ["child-after-end"] else []) ++
+    (if ops.any (fun | .child .drop => true | _ => false) then ["child-dropped"] else []) ++
+    (if ops.any (fun | .child .recordOnly => true | _ => false) then ["child-record-only"] else []) ++
+    (if pg.endsWith "R" then ["parent-record-only"] else []) ++
     (if s.delivered.length ≥ 2 then ["fanout"] else []) ++
     (if s.loaded == some [] then ["no-processor"] else []) ++
     (if afterEnd.any (fun | .reg _ => true | .unreg _ => true | _ => false) then ["reg-during-end"] else []) ++
